@@ -56,7 +56,7 @@ TraceBlock ==
        + Report("MissedGoalOnlyAfterFundingDeadline", MissedGoalOnlyAfterDeadline(Ev.pre, Ev.post, Ev.h))
        + Report("ExpireOnlyAfterDeadline", ExpireOnlyAfterDeadline(Ev.pre, Ev.post, Ev.h))
        + Report("OutcomeFollowsVotes", OutcomeFollowsVotes(Ev.pre, Ev.post, Ev.votesPost))
-       + Report("OutcomeFollowsVotes.decided", DecidedAsVotesSay(Ev.post, Ev.votesPost))
+       + Report("OutcomeFollowsVotes.expired", ExpiredOnlyIfUndecided(Ev.pre, Ev.post, Ev.votesPost))
        + Report("VotesOfSnapshotOnly", SnapshotFixed)
        + Report("ConfigAppliedOnlyForPassed", ConfigOnlyByFinalisedPass)
        + Report("ConfigAppliedWhenPassed", Ev.notApplied = <<>>)
